@@ -147,11 +147,45 @@ def _run_cases(cases, oracles, nontrivial, attribute=None):
 _JOB = {}
 
 
+SHARD_BATCH = 3000            # cases a worker holds (runners, traces) at a time
+
+
+def _merge_parts(parts):
+    """partial results of several batches as one partial result (same keys as `_run_cases`)"""
+    hist = collections.Counter()
+    distinct = {}
+    for p in parts:
+        hist.update(p['hist'])
+        for t, v in p['distinct'].items():
+            distinct[t] = distinct.get(t, False) or v
+    return {'n': sum(p['n'] for p in parts), 'disagreements': [d for p in parts for d in p['disagreements']][:20],
+            'n_dis': sum(p['n_dis'] for p in parts), 'oracle_failures': [f for p in parts for f in p['oracle_failures']][:20],
+            'foreign': [f for p in parts for f in p.get('foreign', [])][:3], 'n_foreign': sum(p.get('n_foreign', 0) for p in parts),
+            'hist': hist, 'distinct': distinct, 'samples': parts[0]['samples'] if parts else [], 'lines': sum(p['lines'] for p in parts)}
+
+
 def _shard(k):
-    """one worker of the thorough tier: its own PRNG stream, its own driver processes (forked: inherits _JOB)"""
+    """one worker of the thorough tier: its own PRNG stream, its own driver processes (forked: inherits _JOB); the cases are generated
+    and judged batch by batch so that a worker never holds more than SHARD_BATCH runners and traces"""
     j = _JOB
     rng = random.Random(f'{j["prop"]}-{j["seed"]}-shard{k}')
-    return _run_cases(gen_cases(rng, j['spec'], j['per_shard']), j['oracles'], j['nontrivial'], j.get('attribute'))
+    parts, left = [], j['per_shard']
+    while left > 0:
+        n = min(SHARD_BATCH, left)
+        parts.append(_run_cases(gen_cases(rng, j['spec'], n), j['oracles'], j['nontrivial'], j.get('attribute')))
+        left -= n
+    return _merge_parts(parts)
+
+
+def _run_shards():
+    """the shards on worker processes; a worker that dies (e.g. killed for memory by the OS) breaks the pool instead of hanging it, and
+    the shards are then run one after the other in this process"""
+    import concurrent.futures, multiprocessing
+    try:
+        with concurrent.futures.ProcessPoolExecutor(THOROUGH_SHARDS, mp_context=multiprocessing.get_context('fork')) as ex:
+            return list(ex.map(_shard, range(THOROUGH_SHARDS)))
+    except concurrent.futures.process.BrokenProcessPool:
+        return [_shard(k) for k in range(THOROUGH_SHARDS)]
 
 
 THOROUGH_SHARDS = 12          # worker processes of the thorough tier (the sandbox has 16 cores)
@@ -175,8 +209,7 @@ def run_kernel(ctx, prop, spec, n_quick, n_thorough, oracles=(), nontrivial=None
         import multiprocessing
         _JOB.update(prop=prop, seed=ctx.seed, spec=spec, oracles=oracles, nontrivial=nontrivial, attribute=attribute,
                     per_shard=max(1, THOROUGH_FACTOR * n_thorough // THOROUGH_SHARDS))
-        with multiprocessing.get_context('fork').Pool(THOROUGH_SHARDS) as pool:
-            parts += pool.map(_shard, range(THOROUGH_SHARDS))
+        parts += _run_shards()
     disagreements = [d for p in parts for d in p['disagreements']]
     oracle_failures = [f for p in parts for f in p['oracle_failures']]
     hist = collections.Counter()
